@@ -6,7 +6,7 @@ func init() {
 		Title: "Batched requests are answered in order and independently",
 		Kernels: []Kernel{
 			{Name: "batch-all-interleavings", Pkg: ".", Files: []string{"root/fed.go", "root/c01.go", "root/c08.go"}, Entry: "VerifBatch", Mode: "all", Race: true, Native: true,
-				Quick: map[string]int{"rmax": 2, "classes": 14}, Thorough: map[string]int{"rmax": 2, "classes": 14},
+				Quick: map[string]int{"rmax": 2, "classes": 15}, Thorough: map[string]int{"rmax": 2, "classes": 15},
 				Reach:     []string{"single", "batch of several", "empty batch"},
 				Functions: []string{"(*Gateway).Handler", "(*Gateway).queryHandler", "(*Gateway).queryHandler$1", "(*Gateway).queryHandler$2", "Results.Emit", "emitError", "(*Gateway).parseIntrospectionQuery", "(*Gateway).getQueryers", "requests.Parse", "requests.parseRequest", "common.AsyncMapReduce[int,*Result,Results]", "planner.SequentialPlanner.Plan", "introspection.(*IntrospectionResolver).ResolveIntrospectionFields", "gqlerrors.FormatError"}},
 			{Name: "batches-of-three", Pkg: ".", Files: []string{"root/fed.go", "root/c01.go", "root/c08.go"}, Entry: "VerifBatch", Mode: "all", Race: true, ThoroughOnly: true,
@@ -28,6 +28,6 @@ func init() {
 			"gqlparser.LoadQuery runs natively on the concrete operation strings of the pool",
 			"engine's model of channels/WaitGroup/select; encoding/json = abstract codec",
 		},
-		Outside: []string{"batches longer than 2 over the 14-class pool and longer than 3 over its first 6 classes (14 classes with batches of three exhaust the memory of this machine: 50 GB at 14^3 combinations)", "operations outside the 14-class pool"},
+		Outside: []string{"batches longer than 2 over the 15-class pool and longer than 3 over its first 6 classes (14 classes with batches of three exhaust the memory of this machine: 50 GB at 14^3 combinations)", "operations outside the 15-class pool"},
 	})
 }
